@@ -58,6 +58,10 @@ def table_text(deps):
             args.append("-j")
         if d.get("external"):
             args.append("--external")
+        if d.get("t"):
+            args += ["-t", d["t"]]          # a tag of this line's own: in front of the VRO for this line only
+        if d.get("vro"):
+            args += ["--vro", d["vro"]]      # a VRO of this line's own (one word)
         args.append(d["n"])
         if d.get("v"):
             args.append(d["v"])
@@ -69,6 +73,7 @@ def install(root, graph, default_product=False):
     """Create root/stack0 (+ userdata) holding the graph's products.  Returns the stack path."""
     stacks, _ = common.mkstacks(root, default_product=default_product)
     s = stacks[0]
+    chains = {}                 # (product, tag) -> [(flavor, version)]: one chain file, one group per flavor
     for p in graph["products"]:
         n, v = p["name"], p["version"]
         if p.get("notable"):
@@ -89,10 +94,24 @@ def install(root, graph, default_product=False):
             txt = VERSION_FILE % {"name": n, "version": v}
             if p.get("notable"):
                 txt = txt.replace("UPS_DIR = ups", "UPS_DIR = none").replace("TABLE_FILE = %s.table" % n, "TABLE_FILE = none")
+            also = p.get("also")
+            if also:
+                # the same version declared for a second flavor in this stack: one more group in the version file,
+                # an installation directory of its own
+                fl = also["flavor"]
+                common.mkprod(s, n, v, "", flavor=fl)
+                grp = VERSION_FILE.split("Group:\n", 1)[1] % {"name": n, "version": v}
+                txt += "\nGroup:\n" + grp.replace("FLAVOR = Linux", "FLAVOR = " + fl).replace("PROD_DIR = Linux/", "PROD_DIR = %s/" % fl)
             f.write(txt)
         for t in p.get("tags", []):
-            with open(os.path.join(db, t + ".chain"), "w") as f:
-                f.write(CHAIN_FILE % {"name": n, "version": v, "tag": t})
+            chains.setdefault((n, t), []).append((FLAVOR, v))
+        for t in (p.get("also") or {}).get("tags", []):
+            chains.setdefault((n, t), []).append((p["also"]["flavor"], v))
+    for (n, t), blocks in chains.items():
+        head, grp = (CHAIN_FILE % {"name": n, "version": "%(version)s", "tag": t}).split("#Group:\n", 1)
+        with open(os.path.join(s, "ups_db", n, t + ".chain"), "w") as f:
+            f.write(head + "\n".join("#Group:\n" + grp.replace("FLAVOR = Linux", "FLAVOR = " + fl) % {"version": v}
+                                     for fl, v in sorted(blocks)))
     return s
 
 
@@ -254,8 +273,24 @@ def snapshot(stack):
     return out
 
 
-def db_listing(stack):
-    """What a fresh reader of the database files sees: declared (name, version) and tags."""
+def _groups(path):
+    """[{KEY: value}] for the groups of a version or chain file"""
+    out, cur = [], None
+    with open(path) as fh:
+        for line in fh:
+            line = line.strip()
+            if line.lstrip("#").startswith("Group:"):
+                cur = {}
+                out.append(cur)
+            elif cur is not None and "=" in line:
+                k, v = line.split("=", 1)
+                cur[k.strip()] = v.strip().strip('"')
+    return out
+
+
+def db_listing(stack, flavor=FLAVOR, others=False):
+    """What a fresh reader of the database files sees for `flavor` (with `others`: for every other flavor, each entry
+    followed by its flavor): declared (name, version) and tags."""
     db = os.path.join(stack, "ups_db")
     decl, tags = [], []
     for n in sorted(os.listdir(db)):
@@ -264,13 +299,11 @@ def db_listing(stack):
             continue
         for f in sorted(os.listdir(d)):
             if f.endswith(".version"):
-                decl.append([n, f[:-len(".version")]])
+                for g in _groups(os.path.join(d, f)):
+                    if (g.get("FLAVOR") != flavor) == others:
+                        decl.append([n, f[:-len(".version")]] + ([g.get("FLAVOR")] if others else []))
             elif f.endswith(".chain"):
-                ver = None
-                with open(os.path.join(d, f)) as fh:
-                    for line in fh:
-                        line = line.strip()
-                        if line.startswith("VERSION"):
-                            ver = line.split("=", 1)[1].strip()
-                tags.append([n, f[:-len(".chain")], ver])
+                for g in _groups(os.path.join(d, f)):
+                    if (g.get("FLAVOR") != flavor) == others:
+                        tags.append([n, f[:-len(".chain")], g.get("VERSION")] + ([g.get("FLAVOR")] if others else []))
     return {"decl": decl, "tags": tags}
